@@ -50,9 +50,10 @@ struct Item {
     insd: bool,
     otyp: &'static str,
     inmd: bool,
-    crypt: (String, String),
+    crypt: (String, String, bool),
     plain: Vec<u8>,
     osm: bool, // the object is a member of an object stream container held by the document
+    gone: bool, // the caller deleted the object
 }
 
 fn typ_of(d: &Dictionary) -> &'static str {
@@ -69,33 +70,46 @@ fn bookkeeping(o: &Object) -> bool {
     matches!(o.type_name(), Ok(b"ObjStm") | Ok(b"XRef") | Ok(b"Linearized"))
 }
 
-/// The stream's Crypt filter as ISO 32000 reads it: (form, name).
-fn crypt_of(s: &Stream) -> (String, String) {
-    let none = ("none".to_string(), String::new());
+/// The stream's Crypt filter as ISO 32000 reads it: (form, name, given through an indirect object).  References in
+/// DecodeParms, in its array element and in Name are resolved in `doc` (ISO 32000-1 7.3.10).
+fn crypt_of(s: &Stream, doc: Option<&Document>) -> (String, String, bool) {
+    let none = ("none".to_string(), String::new(), false);
     let filters: Vec<Vec<u8>> = match s.dict.get(b"Filter") {
         Ok(Object::Name(n)) => vec![n.clone()],
         Ok(Object::Array(a)) => a.iter().filter_map(|o| o.as_name().ok().map(|n| n.to_vec())).collect(),
         _ => return none,
     };
     let Some(idx) = filters.iter().position(|f| f == b"Crypt") else { return none };
-    let name_of = |d: &Dictionary| d.get(b"Name").and_then(Object::as_name).ok().map(|n| String::from_utf8_lossy(n).to_string());
-    match s.dict.get(b"DecodeParms") {
-        Ok(Object::Dictionary(d)) => match name_of(d) {
-            Some(n) => ("name".into(), n),
-            None => ("noname".into(), String::new()),
+    let mut ind = false;
+    let mut res = |o: &Object| -> Object {
+        match (o, doc) {
+            (Object::Reference(id), Some(d)) => {
+                ind = true;
+                d.objects.get(id).cloned().unwrap_or(Object::Null)
+            }
+            _ => o.clone(),
+        }
+    };
+    let parms = s.dict.get(b"DecodeParms").ok().map(&mut res);
+    let (form, d) = match parms {
+        Some(Object::Dictionary(d)) => ("name", Some(d)),
+        Some(Object::Array(a)) => match a.get(idx).map(&mut res) {
+            Some(Object::Dictionary(d)) => ("arr", Some(d)),
+            _ => ("nodp", None),
         },
-        Ok(Object::Array(a)) => match a.get(idx) {
-            Some(Object::Dictionary(d)) => match name_of(d) {
-                Some(n) => ("arr".into(), n),
-                None => ("nodp".into(), String::new()),
-            },
-            _ => ("nodp".into(), String::new()),
-        },
-        _ => ("nodp".into(), String::new()),
+        _ => ("nodp", None),
+    };
+    let name = d.and_then(|d| d.get(b"Name").ok().map(&mut res)).and_then(|o| o.as_name().ok().map(|n| String::from_utf8_lossy(n).to_string()));
+    match (form, name) {
+        ("nodp", _) => ("nodp".into(), String::new(), ind),
+        (f, Some(n)) => (f.into(), n, ind),
+        ("name", None) => ("noname".into(), String::new(), ind),
+        (_, None) => ("nodp".into(), String::new(), ind),
     }
 }
 
-struct Ctx {
+struct Ctx<'a> {
+    doc: Option<&'a Document>,
     insd: bool,
     otyp: &'static str,
     inmd: bool,
@@ -107,7 +121,7 @@ fn walk(o: &Object, id: (u32, u16), path: &mut Vec<Seg>, ctx: &Ctx, items: &mut 
     match o {
         Object::String(b, _) => {
             items.push(Item { id, path: path.clone(), kind: "str", insd: ctx.insd, otyp: ctx.otyp, inmd: ctx.inmd,
-                              crypt: ("none".into(), String::new()), plain: b.clone(), osm: false });
+                              crypt: ("none".into(), String::new(), false), plain: b.clone(), osm: false, gone: false });
             Some(json!({"k": "str", "pid": items.len(), "len": b.len()}))
         }
         Object::Array(a) => {
@@ -123,7 +137,7 @@ fn walk(o: &Object, id: (u32, u16), path: &mut Vec<Seg>, ctx: &Ctx, items: &mut 
         }
         Object::Dictionary(d) => {
             let typ = typ_of(d);
-            let c = Ctx { insd: ctx.insd, otyp: ctx.otyp, inmd: ctx.inmd || typ == "Metadata" };
+            let c = Ctx { doc: ctx.doc, insd: ctx.insd, otyp: ctx.otyp, inmd: ctx.inmd || typ == "Metadata" };
             let mut v = vec![];
             for (k, x) in d.iter() {
                 path.push(Seg::Key(k.clone()));
@@ -136,13 +150,13 @@ fn walk(o: &Object, id: (u32, u16), path: &mut Vec<Seg>, ctx: &Ctx, items: &mut 
         }
         Object::Stream(s) => {
             let typ = typ_of(&s.dict);
-            let crypt = crypt_of(s);
+            let crypt = crypt_of(s, ctx.doc);
             path.push(Seg::Content);
             items.push(Item { id, path: path.clone(), kind: "stream", insd: false, otyp: typ, inmd: false, crypt: crypt.clone(),
-                              plain: s.content.clone(), osm: false });
+                              plain: s.content.clone(), osm: false, gone: false });
             path.pop();
             let pid = items.len();
-            let c = Ctx { insd: true, otyp: typ, inmd: false };
+            let c = Ctx { doc: ctx.doc, insd: true, otyp: typ, inmd: false };
             let mut v = vec![];
             for (k, x) in s.dict.iter() {
                 path.push(Seg::SKey(k.clone()));
@@ -151,7 +165,7 @@ fn walk(o: &Object, id: (u32, u16), path: &mut Vec<Seg>, ctx: &Ctx, items: &mut 
                 }
                 path.pop();
             }
-            Some(json!({"k": "stream", "typ": typ, "crypt": {"f": crypt.0, "n": crypt.1}, "d": v, "pid": pid, "len": s.content.len(), "mem": []}))
+            Some(json!({"k": "stream", "typ": typ, "crypt": {"f": crypt.0, "n": crypt.1, "ind": crypt.2}, "d": v, "pid": pid, "len": s.content.len(), "mem": []}))
         }
         _ => None,
     }
@@ -165,7 +179,7 @@ fn abstract_of(doc: &Document) -> (Vec<Value>, Vec<Item>) {
     let ids: Vec<(u32, u16)> = doc.objects.keys().copied().collect();
     let mut members = std::collections::BTreeSet::new();
     for (id, o) in doc.objects.iter() {
-        let t = walk(o, *id, &mut vec![], &Ctx { insd: false, otyp: "-", inmd: false }, &mut items);
+        let t = walk(o, *id, &mut vec![], &Ctx { doc: Some(doc), insd: false, otyp: "-", inmd: false }, &mut items);
         // (an object without strings that save never writes still is bookkeeping for the object count)
         let mut t = t.unwrap_or_else(|| if bookkeeping(o) { json!({"k": "dict", "typ": "XRef", "v": []}) } else { json!({"k": "other"}) });
         if let Object::Stream(s) = o {
@@ -209,7 +223,7 @@ fn observe(doc: &Document, items: &[Item]) -> Value {
             .map(|it| {
                 let cur = lookup(doc, it);
                 json!({"kind": it.kind, "insd": it.insd, "otyp": it.otyp, "inmd": it.inmd, "osm": it.osm,
-                       "crypt": {"f": it.crypt.0, "n": it.crypt.1}, "len": it.plain.len(),
+                       "crypt": {"f": it.crypt.0, "n": it.crypt.1, "ind": it.crypt.2}, "gone": it.gone, "len": it.plain.len(),
                        "present": cur.is_some(), "eq": cur.map(|c| c == &it.plain[..]).unwrap_or(false)})
             })
             .collect(),
@@ -285,6 +299,7 @@ fn rel1(r: i64, pw: &str, reference: &str) -> &'static str {
 /// Revisions 2-4: an empty owner password means "there is no owner password" and Algorithm 3 (a) uses the user
 /// password in its place (lopdf since fix: c09ccb6).
 fn rel_owner(r: i64, pw: &str, user: &str, owner: &str) -> &'static str {
+    // (revisions 5-6: Algorithms 8 / 9 have no such step, an empty owner password is the owner password)
     rel1(r, pw, if r <= 4 && owner.is_empty() { user } else { owner })
 }
 
@@ -471,6 +486,18 @@ fn run_case(k: usize, mut doc: Document, cfg0: &Value, user: &str, owner: &str, 
                     Err(e) => Err(format!("{e:?}").chars().take(60).collect()),
                 }),
             },
+            "Delete" => {
+                let pos = c["pos"].as_u64().unwrap_or(0) as usize;
+                match ids0.get(pos.wrapping_sub(1)) {
+                    _ if doc.trailer.get(b"Encrypt").is_ok() => Ok(Err("harness:encrypted".into())),
+                    Some(id) if doc.objects.get(id).map(|o| !bookkeeping(o) && !matches!(o, Object::Stream(_))).unwrap_or(false) => {
+                        doc.objects.remove(id);
+                        items.iter_mut().filter(|it| it.id == *id).for_each(|it| it.gone = true);
+                        Ok(Ok(()))
+                    }
+                    _ => Ok(Err("harness:absent".into())),
+                }
+            }
             "Edit" => {
                 let pos = c["pos"].as_u64().unwrap_or(0) as usize;
                 match ids0.get(pos.wrapping_sub(1)) {
@@ -728,7 +755,7 @@ fn two_revision_file(plain: &Document, state: &EncryptionState, rng: &mut Rng) -
     let mut d = plain.clone();
     d.objects.retain(|_, o| !bookkeeping(o));
     let eligible: Vec<(u32, u16)> = d.objects.iter()
-        .filter(|(id, o)| id.1 == 0 && !matches!(o, Object::Stream(_)) && walk(o, **id, &mut vec![], &Ctx { insd: false, otyp: "-", inmd: false }, &mut vec![]).is_some())
+        .filter(|(id, o)| id.1 == 0 && !matches!(o, Object::Stream(_)) && walk(o, **id, &mut vec![], &Ctx { doc: None, insd: false, otyp: "-", inmd: false }, &mut vec![]).is_some())
         .map(|(id, _)| *id).take(3).collect();
     let moved = *eligible.first()?;
     let top = d.objects.keys().map(|k| k.0).max().unwrap_or(0).max(d.max_id);
@@ -867,6 +894,17 @@ fn concrete_doc(objs: &Value, file: bool) -> Document {
             doc.objects.insert((i as u32 + 1, 0), concrete(o));
         }
         doc.max_id = i as u32 + 1;
+    }
+    // a stream whose Crypt parameters are "indirect": they become the object that follows it
+    for (i, o) in objs.as_array().unwrap().iter().enumerate() {
+        if o["k"] == "stream" && o["crypt"]["ind"] == true {
+            let (sid, pid) = ((i as u32 + 1, 0), (i as u32 + 2, 0));
+            let parms = doc.objects.get(&sid).and_then(|s| s.as_stream().ok()).and_then(|s| s.dict.get(b"DecodeParms").ok()).cloned();
+            if let (Some(p), Some(Object::Stream(s))) = (parms, doc.objects.get_mut(&sid)) {
+                s.dict.set("DecodeParms", Object::Reference(pid));
+                doc.objects.insert(pid, p);
+            }
+        }
     }
     doc.trailer.set("Root", Object::Reference((1, 0)));
     doc.trailer.set("ID", Object::Array(vec![Object::String(content("id0", 16, false), StringFormat::Hexadecimal),
@@ -1017,6 +1055,27 @@ fn rand_doc(rng: &mut Rng, cfg: &Value) -> Document {
                 c = content("hex", c.len(), true);
             }
         }
+        // the parameters (or the Name in them) through an indirect object, as any dictionary value may be given
+        if rng.chance(1, 4) {
+            match d.get(b"DecodeParms").ok().cloned() {
+                Some(Object::Dictionary(mut p)) => {
+                    if rng.chance(1, 2) {
+                        let id = doc.add_object(Object::Dictionary(p));
+                        d.set("DecodeParms", Object::Reference(id));
+                    } else if let Ok(n) = p.get(b"Name").cloned() {
+                        let id = doc.add_object(n);
+                        p.set("Name", Object::Reference(id));
+                        d.set("DecodeParms", Object::Dictionary(p));
+                    }
+                }
+                Some(Object::Array(mut a)) => {
+                    let id = doc.add_object(a[0].clone());
+                    a[0] = Object::Reference(id);
+                    d.set("DecodeParms", Object::Array(a));
+                }
+                _ => {}
+            }
+        }
         doc.add_object(Object::Stream(Stream::new(d, c)));
     }
     // an XRef stream held in memory (never written by save), a non-stream dictionary typed /Metadata
@@ -1043,13 +1102,17 @@ fn rand_doc(rng: &mut Rng, cfg: &Value) -> Document {
 
 /// `editable`: positions (in id order) of the objects an Edit may address.  Edits are only issued where the document
 /// is expected to be unencrypted (after a decrypt with the user or owner password, before the next encrypt).
-fn rand_calls(rng: &mut Rng, cfg: &Value, user: &str, owner: &str, editable: &[usize]) -> Vec<Value> {
+fn rand_calls(rng: &mut Rng, cfg: &Value, user: &str, owner: &str, editable: &[usize], deletable: &[usize]) -> Vec<Value> {
     let r = cfg["R"].as_i64().unwrap();
     let edits = |rng: &mut Rng, calls: &mut Vec<Value>, num: u32, den: u32| {
         if !editable.is_empty() && rng.chance(num, den) {
             for _ in 0..(1 + rng.below(2)) {
                 calls.push(json!({"call": "Edit", "pos": *rng.pick(editable)}));
             }
+        }
+        // the caller deletes an object the loader unpacked from an object stream
+        if !deletable.is_empty() && rng.chance(1, 3) {
+            calls.push(json!({"call": "Delete", "pos": *rng.pick(deletable)}));
         }
     };
     let wrong = |rng: &mut Rng| -> String {
@@ -1209,9 +1272,12 @@ fn main() {
                     }
                 }
                 let editable: Vec<usize> = doc.objects.values().enumerate()
-                    .filter(|(_, o)| !bookkeeping(o) && walk(o, (0, 0), &mut vec![], &Ctx { insd: false, otyp: "-", inmd: false }, &mut vec![]).is_some())
+                    .filter(|(_, o)| !bookkeeping(o) && walk(o, (0, 0), &mut vec![], &Ctx { doc: None, insd: false, otyp: "-", inmd: false }, &mut vec![]).is_some())
                     .map(|(i, _)| i + 1).collect();
-                let calls = rand_calls(&mut rng, &cfg, &user, &owner, &editable);
+                let deletable: Vec<usize> = abstract_of(&doc).0.iter().filter(|o| o["k"] == "stream")
+                    .flat_map(|o| o["mem"].as_array().unwrap().iter().map(|p| p.as_u64().unwrap() as usize).collect::<Vec<_>>())
+                    .filter(|p| editable.contains(p)).collect(); // (with strings, so that its coming back can be seen)
+                let calls = rand_calls(&mut rng, &cfg, &user, &owner, &editable, &deletable);
                 cases.push((cfg, user, owner, doc, calls, rng.next_u64(), prep, file));
             }
             // the concrete inputs (document in the wire projection, passwords, calls) go to a side file
